@@ -209,6 +209,49 @@ func checkC08(c C08Case, rec *obs.Recorder) *obs.Violation {
 			if v := addTok(tok, []m.Block{b}, false, "build"); v != nil {
 				return v
 			}
+		case "grow", "fork":
+			// composite: createBlock + add + buildBlock + append on one token, once (grow: builds
+			// deep chains quickly) or twice on the same parent (fork: two sibling tokens)
+			i := op.A % len(toks)
+			if op.Op == "grow" {
+				// prefer the deepest unsealed token
+				for k := range toks {
+					if !toks[k].sealed && len(toks[k].model) > len(toks[i].model) {
+						i = k
+					}
+				}
+			}
+			if toks[i].sealed || len(toks) >= 12 {
+				continue
+			}
+			times := 1
+			if op.Op == "fork" {
+				times = 2
+			}
+			for n := 0; n < times; n++ {
+				content := m.Block{}
+				bb := toks[i].tok.CreateBlock()
+				f := c08Fact(tag, 10+n)
+				if err := bb.AddFact(bridge.ToFact(f)); err != nil {
+					return obs.Violf("history [%s]: AddFact: %v", strings.Join(hist, "; "), err)
+				}
+				content.Facts = append(content.Facts, f)
+				if op.Kind == 2 {
+					ch := c08Check(tag, 10+n)
+					_ = bb.AddCheck(bridge.ToCheck(ch))
+					content.Checks = append(content.Checks, ch)
+				}
+				hist = append(hist, fmt.Sprintf("%d:%s(t%d)->t%d", step, op.Op, i, len(toks)))
+				nt, err := toks[i].tok.Append(rng, bb.Build())
+				if err != nil {
+					return obs.Violf("history [%s]: Append failed: %v", strings.Join(hist, "; "), err)
+				}
+				derivations[i]++
+				model := append(append([]m.Block{}, toks[i].model...), content)
+				if v := addTok(nt, model, false, fmt.Sprintf("%s of t%d", op.Op, i)); v != nil {
+					return v
+				}
+			}
 		case "createBlock":
 			i := op.A % len(toks)
 			if len(builders) >= 12 {
@@ -369,7 +412,7 @@ func drawC08(t *rapid.T) C08Case {
 	c := C08Case{RootSeed: rapid.Uint64Range(1, 1<<16).Draw(t, "root")}
 	n := rapid.IntRange(4, 28).Draw(t, "steps")
 	ops := []string{"createBlock", "createBlock", "add", "add", "add", "buildBlock", "buildBlock", "append", "append", "append",
-		"seal", "reload", "getBlockID", "authorize", "print", "build"}
+		"seal", "reload", "getBlockID", "authorize", "print", "build", "grow", "grow", "grow", "fork", "fork"}
 	for i := 0; i < n; i++ {
 		c.Ops = append(c.Ops, C08Op{
 			Op:   rapid.SampledFrom(ops).Draw(t, "op"),
